@@ -19,8 +19,9 @@ RULE = ("exhaustive walk of the decoder's own decision tree (a node is expanded 
         "non-ASCII byte")
 ASSUMPTIONS = ["bytes objects hold values < 256 (the model's List Nat is used on such values only)",
                "encodings are the three the property names: utf-8, ascii, latin-1",
-               "under utf-8 a single-byte 8-bit Meta key whose value is a UTF-8 lead byte (C0..FD) counts as recognised only "
-               "when it ends a read (property text); 80..BF, FE, FF are recognised anywhere",
+               "under utf-8 a single-byte 8-bit Meta key whose value is a UTF-8 lead byte (RFC 3629: C2..F4) counts as "
+               "recognised only when it ends a read (property text); every other one-byte key is recognised anywhere - for "
+               "C0, C1, F5..FD the code disagrees (known finding D43)",
                "READING: 'never merged with what follows unless it is also the beginning of a longer recognised sequence' - "
                "after a key that is itself a KEYMAP_PREFIXES member (ESC, ESC ESC, ESC O, ESC [) has merged with what "
                "follows, which the text licenses, nothing is claimed about the table sequence that followed it (e.g. "
@@ -34,6 +35,14 @@ ASSUMPTIONS = ["bytes objects hold values < 256 (the model's List Nat is used on
                "characters (theorem C03_waits_only_when_growable); on other bytes (e.g. E0 41) the decoder may wait "
                "without a possible completion - outside the property's domain",
                "the isinstance(bytes) TypeError guard of get_key is outside the model (inputs are bytes)"]
+LEVEL_NOTE = ("trusted: Lean kernel + propext/Classical.choice/Quot.sound, the hand-written decoder model and Spec/Utf8 (tied to "
+              "bytes.decode and the real predicates on every run), extract.py, the wire codec; CPython and the OS are modelled not "
+              "verified. The lossless theorems are conditional on the decoder not raising (they speak about calls that return). "
+              "READINGS: characters whose encoding is a table key are reported under the table name (162 of 256 under latin-1): "
+              "C03_chars carries the hypothesis `hnk`, C03_chars_table_key covers the other half; nothing is claimed about the "
+              "table sequence that follows a key which is itself a KEYMAP_PREFIXES member once they have merged. OPEN FINDINGS "
+              "whose footprints the theorems exclude by hypothesis and the oracle tags exactly: D12 (prefix member + byte >= 0x80), "
+              "D43 (one-byte keys C0, C1, F5..FD under utf-8), D40 (paste_threshold=None: read boundary decoded as buffer end)")
 TRUSTED = ["Spec/Utf8.lean: strict UTF-8 as CPython decodes it (tied to bytes.decode on every tree node and every "
            "scalar value sampled; all scalar values in the thorough tier)"]
 
@@ -109,7 +118,7 @@ def units_for(enc):
     """recognised sequences and characters for random streams: (units usable anywhere, units usable only last)"""
     anywhere, last = [], []
     for k in TABLE_KEYS:
-        if enc == "utf8" and len(k) == 1 and 0xc0 <= k[0] <= 0xfd:     # collides with a UTF-8 lead byte
+        if enc == "utf8" and len(k) == 1 and k[0] in kc.LEADS:       # collides with a UTF-8 lead byte (C2..F4)
             last.append(k)
         else:
             anywhere.append(k)
@@ -151,6 +160,17 @@ def is_d12(enc, exc, at):
             and bytes(at[:-1]) in ev.KEYMAP_PREFIXES and at[-1] >= 0x80)
 
 
+def is_d43(enc, cur, exc=None, waits=False, full=False):
+    """footprint of known finding D43: utf-8; the bytes the decoder holds start with one of the one-byte keys C0, C1,
+    F5..FD (not UTF-8 lead bytes) and another byte follows or is announced; it waits, or raises UnicodeDecodeError
+    (find_key: ValueError when the buffer ends while it waits)"""
+    if enc != "utf8" or not cur or cur[0] not in kc.D43SET:
+        return False
+    if waits:
+        return len(cur) >= 2 or not full
+    return len(cur) >= 2 and isinstance(exc, (UnicodeDecodeError, ValueError))
+
+
 def unit_ends(seq, enc, at_end_of_read):
     """positions reachable from 0 by whole recognised sequences / validly encoded characters"""
     seq = bytes(seq)
@@ -162,7 +182,7 @@ def unit_ends(seq, enc, at_end_of_read):
             piece = seq[i:i + n]
             if len(piece) < n:
                 break
-            if piece in kc.TABLE_SET and not (enc == "utf8" and n == 1 and 0xc0 <= piece[0] <= 0xfd
+            if piece in kc.TABLE_SET and not (enc == "utf8" and n == 1 and piece[0] in kc.LEADS
                                               and not (at_end_of_read and i + 1 == len(seq))):
                 reach.add(i + n)
             if n <= 4:
@@ -191,11 +211,13 @@ def oracle_node(enc, seq, full):
     except Exception as e:  # noqa: BLE001
         if is_unit_prefix(seq, enc, full):
             bad.append(("get_key raised %s on the start of input made of recognised sequences and valid characters"
-                        % type(e).__name__, "D12" if is_d12(enc, e, list(seq)) else None))
+                        % type(e).__name__, "D12" if is_d12(enc, e, list(seq)) else
+                        "D43" if isinstance(e, UnicodeDecodeError) and is_d43(enc, list(seq), e) else None))
         return bad
     if r is None and is_unit_prefix(seq, enc, full):
         if not (kc.is_table_prefix(seq) or kc.is_char_prefix(seq, enc)):
-            bad.append(("get_key asks for more input although the bytes cannot grow into a recognised sequence or a character", None))
+            bad.append(("get_key asks for more input although the bytes cannot grow into a recognised sequence or a character",
+                        "D43" if is_d43(enc, list(seq), waits=True, full=full) else None))
     if r is None and full and (bytes(seq) in ev.CURTSIES_NAMES or bytes(seq) in ev.CURSES_NAMES):
         bad.append(("a recognised sequence that ends the read is not reported", None))
     return bad
@@ -213,7 +235,7 @@ def oracle_table(enc, u, rest, rest_is_units, modes=tuple(MODES)):
     """a recognised sequence u arriving whole, followed by rest; -> list of (what, footprint)"""
     bad = []
     longer = kc.is_table_prefix(u)                       # u is also the beginning of a longer recognised sequence
-    collide = enc == "utf8" and len(u) == 1 and 0xc0 <= u[0] <= 0xfd and rest   # lead-byte-valued Meta key not ending the read
+    collide = enc == "utf8" and len(u) == 1 and u[0] in kc.LEADS and rest   # lead-byte-valued (C2..F4) Meta key not ending the read
     if collide:
         return bad
     # proper prefixes: the decoder must wait (more bytes are buffered)
@@ -229,7 +251,8 @@ def oracle_table(enc, u, rest, rest_is_units, modes=tuple(MODES)):
             if (not rest or not longer) or rest_is_units:
                 bad.append(("find_key raised %s on a recognised sequence followed by %s" % (
                     type(r.exc).__name__, "nothing" if not rest else "recognised input"),
-                    "D12" if is_d12(enc, r.exc, r.at) else None))
+                    "D12" if is_d12(enc, r.exc, r.at) else
+                    "D43" if (len(u) == 1 and rest and is_d43(enc, r.cur, r.exc)) else None))
             continue
         k, consumed, left = r
         if consumed + left != u + rest or not consumed:
@@ -279,7 +302,8 @@ def oracle_stream(enc, units, kind):
         except kc.FindFailure as f:
             if kind == "units":
                 bad.append(("decoding failed with %s on input made of recognised sequences and valid characters"
-                            % type(f.exc).__name__, "D12" if is_d12(enc, f.exc, f.at) else None))
+                            % type(f.exc).__name__, "D12" if is_d12(enc, f.exc, f.at) else
+                            "D43" if is_d43(enc, f.cur, f.exc) else None))
             continue
         if b"".join(c for _, c in ps) != buf or any(not c for _, c in ps):
             bad.append(("bytes lost, duplicated or reordered over a whole stream", None))
@@ -293,27 +317,72 @@ def oracle_stream(enc, units, kind):
 
 # --------------------------------------------------------------------------------------------------------------
 
-def burst_case(enc, pt, boundary, k, u):
-    """`u` starts k bytes before a READ_SIZE boundary of one burst: filler 'a's, u, five 'b's"""
-    return b"a" * (boundary - k) + u + b"b" * 5
+BEFORE = bytes(0x61 + i % 26 for i in range(4096))       # a b c ... : position-dependent filler, none a table key
+AFTER = b"0123456"
+
+
+def burst_case(boundary, k, u):
+    """one burst in which `u` starts k bytes before a READ_SIZE boundary (k = 0: right after it; k = len(u): ends at
+    it): letters before, u, digits after - different on the two sides, so loss and reordering show"""
+    return BEFORE[:boundary - k] + u + AFTER
 
 
 def burst_expected(enc, boundary, k, u):
     """the expected segmentation, from the tables / the character itself (curtsies naming)"""
-    name = ev.CURTSIES_NAMES[u] if u in ev.CURTSIES_NAMES else u.decode(ENCS[enc])
-    return ["a"] * (boundary - k) + [name] + ["b"] * 5
+    if u == b"xy":
+        names = ["x", "y"]          # two plain characters across the boundary: order must survive
+    else:
+        names = [ev.CURTSIES_NAMES[u] if u in ev.CURTSIES_NAMES else u.decode(ENCS[enc])]
+    return [chr(c) for c in BEFORE[:boundary - k]] + names + [chr(c) for c in AFTER]
+
+
+def d40_expected(buf, enc, mode="curtsies"):
+    """what known finding D40 explains, nothing more: each READ_SIZE chunk of the burst decoded on its own with its
+    end treated as 'buffer exhausted' (the real get_key driven as find_key does); the first failure ends the run"""
+    import curtsies.input as cinput
+    out = []
+    for lo in range(0, len(buf), cinput.READ_SIZE):
+        rest = buf[lo:lo + cinput.READ_SIZE]
+        while rest:
+            try:
+                k, c, rest = kc.find_key(rest, enc, mode)
+            except kc.FindFailure as f:
+                out.append("RAISED " + type(f.exc).__name__)
+                return out
+            out.append(k)
+    return out
+
+
+def first_diff(got, exp):
+    i = next((j for j, (x, y) in enumerate(zip(got, exp)) if x != y), min(len(got), len(exp)))
+    return "around key %d: got %r, expected %r" % (i, got[max(0, i - 1):i + 4], exp[max(0, i - 1):i + 3])
 
 
 def oracle_burst(a):
     """a recognised sequence / character that arrives whole inside one burst longer than READ_SIZE is one keypress
-    under its name, wherever the read boundary falls; nothing lost, duplicated or reordered"""
+    under its name, wherever the read boundary falls; nothing lost, duplicated or reordered (bytes naming: the
+    keys concatenate to the burst).  -> None | (what, footprint)"""
     enc, pt, boundary, k, u = a
-    got = kc.burst_through_input(burst_case(enc, pt, boundary, k, u), enc, pt)
+    buf = burst_case(boundary, k, u)
+    got = kc.burst_through_input(buf, enc, pt)
     exp = burst_expected(enc, boundary, k, u)
+    gotb = kc.burst_through_input(buf, enc, pt, "bytes")
+    lossless = all(isinstance(x, bytes) for x in gotb) and b"".join(gotb) == buf
     if got == exp:
+        if not lossless:
+            return ("bytes naming: the keys of the burst do not concatenate to the burst (loss, duplication or "
+                    "reordering): " + first_diff(gotb, d40_expected(buf, enc, "bytes")), None)
         return None
-    i = next((j for j, (x, y) in enumerate(zip(got, exp)) if x != y), min(len(got), len(exp)))
-    return "around key %d: got %r, expected %r" % (i, got[max(0, i - 1):i + 4], exp[max(0, i - 1):i + 3])
+    what = "broken up or misreported at the READ_SIZE boundary: " + first_diff(got, exp)
+    if pt is None:
+        # known finding D40 - exactly: every chunk decoded on its own, and nothing lost unless that decode raises
+        d40 = d40_expected(buf, enc)
+        d40b = d40_expected(buf, enc, "bytes")
+        if got == d40 and gotb == d40b and (lossless or (d40b and d40b[-1] == "RAISED ValueError")):
+            return (what, "D40")
+        return ("paste_threshold=None: not even the chunk-wise decoding known finding D40 explains: "
+                + first_diff(got, d40), None)
+    return (what, None)
 
 
 def burst_items(ctx):
@@ -324,21 +393,16 @@ def burst_items(ctx):
     items = []
     for enc in ENCS:
         units = ([u for u in seqs] if enc == "utf8" or ctx.thorough else seqs[ctx.rng.randrange(6)::6]) + \
-                [c.encode("utf-8") for c in chars[enc]]
+                [c.encode("utf-8") for c in chars[enc]] + [b"xy"]
         for n, u in enumerate(units):
             for boundary in (R, 2 * R):
                 if boundary != R and not ctx.thorough and n % 4 and len(u) < 7 and u[0] == 0x1b:
                     continue
-                for k in range(1, len(u)):
+                for k in range(0, len(u) + 1):
+                    if k in (0, len(u)) and not ctx.thorough and n % 3 and u[0] == 0x1b:
+                        continue
                     items.append((enc, "default", boundary, k, u))
     return items
-
-
-# paste_threshold=None (and any threshold >= READ_SIZE): the UNCHANGED code decodes the tail of a full read as
-# "buffer exhausted" (find_key is called without the top-up read of the paste loop), so a sequence straddling
-# offset READ_SIZE is broken up (ESC [ | A -> '<Esc+[>', 'A').  Recorded as known finding D40 (footprint: a burst case
-# with paste_threshold=None that fails); the default-threshold family above is judged without exception.
-JUDGE_NO_PASTE = True
 
 
 def report(ctx, bads, case):
@@ -398,6 +462,41 @@ def check(ctx, search=False):
         for it, b in zip(items, kc.par_map(w_node, items, procs)):
             if b:
                 report(ctx, b, ("getkey", it[0], "curtsies", int(it[2]), hx(it[1])))
+    # ---- tie 0: the trusted UTF-8 spec and the two predicates directly against CPython / the real functions ---------
+    if not search:
+        B8 = [0x7f, 0x80, 0x8f, 0x90, 0x9f, 0xa0, 0xbf, 0xc0]
+        B4 = [0x7f, 0x80, 0xbf, 0xc0]
+        strs = [bytes([a]) for a in range(256)] + [bytes([a, b]) for a in range(256) for b in range(256)]
+        for lead in (0xe0, 0xe1, 0xec, 0xed, 0xee, 0xef, 0xf0, 0xf1, 0xf3, 0xf4, 0xf5, 0xc2, 0xdf):
+            for b1 in B8:
+                for b2 in B4:
+                    strs.append(bytes([lead, b1, b2]))
+                    for b3 in B4:
+                        strs.append(bytes([lead, b1, b2, b3]))
+        strs += [b"", b"ab\xc3\xa9c", b"\xe2\x82\xac\xe2\x82", b"a\xf0\x9f\x98\x80b", b"\xed\x9f\xbf\xee\x80\x80", b"\xf4\x8f\xbf\xbf\x41"]
+        spec = [("decode", "utf8", hx(x)) for x in strs] + [("unfinished", "utf8", hx(x)) for x in strs if x]
+        short = strs[:256] + strs[256::97]
+        for enc in ("ascii", "latin1"):
+            spec += [("decode", enc, hx(x)) for x in short] + [("unfinished", enc, hx(x)) for x in short]
+        spec += [("decodable", enc, hx(x)) for enc in ENCS for x in short]
+
+        def spec_impl(c):
+            op, enc, h = c
+            x = unhx(h)
+            if op == "decode":
+                try:
+                    return "ok " + kc.cps(x.decode(ENCS[enc]))
+                except UnicodeDecodeError:
+                    return "E:UnicodeDecodeError"
+            if op == "decodable":
+                return "ok %d" % ev.decodable(x, ENCS[enc])
+            return "ok %d" % ev.could_be_unfinished_char(x, ENCS[enc])
+        ctx.tie("C03/utf8-spec-and-predicates", spec, lambda c: "%s %s %s" % c, spec_impl)
+        for c in spec[::50]:
+            ctx.count(c, nontrivial=True, tag="spec-" + c[0])
+        ctx.exhaustive.append("bytes.decode / decodable / could_be_unfinished_char against Spec/Utf8 + model: all 1- and 2-byte "
+                              "strings and %d structured 3/4-byte boundaries under utf-8, samples under ascii/latin-1: %d lines"
+                              % (len(strs) - 65792, len(spec)))
     # ---- tie 1b: sequences longer than MAX_KEYPRESS_SIZE (get_key's ValueError guard) ---------------------------
     M = ev.MAX_KEYPRESS_SIZE
     longs = [b"a" * (M + 1), b"a" * (M + 2), b"\x1b[1;10" + b"A" * (M - 5), b"\x1b" * (M + 1), b"\xe2\x82\xac" * 3,
@@ -482,28 +581,18 @@ def check(ctx, search=False):
     ctx.ties["C03/e2e-find_key"] = dict(compared=len(items), disagreements=len(bad))
     # ---- bursts longer than READ_SIZE through the REAL Input object (select / os.read / paste loop / find_key) -----
     items = burst_items(ctx)
-    res = kc.par_map(oracle_burst, items, procs, chunksize=20)
-    for it, w in zip(items, res):
-        case = ("burst", it[0], it[1], it[2], it[3], hx(it[4]))
-        ctx.count(case, nontrivial=True, tag="burst-straddling-read-boundary")
+    nop = [(e, None, b, k, u) for (e, _, b, k, u) in items[::4]]
+    allb = items + nop
+    res = kc.par_map(oracle_burst, allb, procs, chunksize=20)
+    for it, w in zip(allb, res):
+        case = ("burst", it[0], "None" if it[1] is None else it[1], it[2], it[3], hx(it[4]))
+        ctx.count(case, nontrivial=True, tag="burst-default-threshold" if it[1] == "default" else "burst-no-paste-threshold")
         if w:
-            ctx.violation("a recognised sequence / character arriving whole in one burst is broken up or misreported at "
-                          "the READ_SIZE boundary: " + w, case, None)
-    ctx.exhaustive.append("bursts through the real Input (one arrival, default paste threshold): %d (unit, alignment, "
-                          "boundary) cases - every alignment of the unit across offsets READ_SIZE and 2*READ_SIZE" % len(items))
-    nop = [(e, None, b, k, u) for (e, _, b, k, u) in items[::9]]
-    broken = [it for it, w in zip(nop, kc.par_map(oracle_burst, nop, procs, chunksize=20)) if w]
-    for it in nop:
-        ctx.count(("burst", it[0], "None", it[2], it[3], hx(it[4])), nontrivial=True, tag="burst-no-paste-threshold")
-    if broken:
-        if JUDGE_NO_PASTE:
-            for it in broken:
-                ctx.violation("paste_threshold=None: sequence straddling a read boundary is broken up",
-                              ("burst", it[0], "None", it[2], it[3], hx(it[4])), "D40")
-        else:
-            ctx.note("paste_threshold=None: %d of %d straddling cases are broken up at the read boundary on this tree "
-                     "(e.g. %r) - unchanged-code behaviour reported to the coordinator, not judged"
-                     % (len(broken), len(nop), ("burst", broken[0][0], "None", broken[0][2], broken[0][3], hx(broken[0][4]))))
+            ctx.violation("a recognised sequence / character arriving whole in one burst (paste_threshold=%s) is %s"
+                          % (it[1], w[0]), case, w[1])
+    ctx.exhaustive.append("bursts through the real Input (one arrival): %d (unit, alignment 0..len, boundary) cases with the "
+                          "default paste threshold, every 4th also with paste_threshold=None; curtsies and bytes naming"
+                          % len(items))
     # ---- D12 witness replayed on the real code --------------------------------------------------------------
     for enc in ("utf8", "ascii"):
         try:
@@ -511,6 +600,14 @@ def check(ctx, search=False):
             ctx.note("known finding D12 is stale: get_key(1b ff, %s) no longer raises" % enc)
         except UnicodeDecodeError:
             pass
+    # ---- D43 witness replayed on the real code ----------------------------------------------------------------------
+    try:
+        if kc.real_get_key(b"\xc0", "utf8", "curtsies", False) is not None:
+            ctx.note("known finding D43 is stale: get_key(c0, utf-8, full=False) no longer waits")
+        kc.real_get_key(b"\xc0\x41", "utf8", "curtsies", True)
+        ctx.note("known finding D43 is stale: get_key(c0 41, utf-8) no longer raises")
+    except UnicodeDecodeError:
+        pass
 
 
 def search(ctx):
@@ -526,7 +623,8 @@ def replay(payload):
         _, enc, pt, boundary, k, h = c
         pt = None if pt == "None" else pt
         u = unhx(h)
-        got = kc.burst_through_input(burst_case(enc, pt, boundary, k, u), enc, pt)
+        buf = burst_case(boundary, k, u)
+        got = kc.burst_through_input(buf, enc, pt)
         return dict(case=c, returned_around_boundary=got[boundary - k - 2:boundary - k + 6],
                     expected=burst_expected(enc, boundary, k, u)[boundary - k - 2:boundary - k + 4],
                     oracle=oracle_burst((enc, pt, boundary, k, u)))
